@@ -183,6 +183,18 @@ def route_grammars(R):
             for i in range(d):
                 e = R.Seq(e) if i % 2 else R.Opt(e)
             rules.append(R.Rule(f'M{d}', e))
+        # a never-failing node (repetition, option) at every depth: where it is the node that is split
+        # off, its status must still reach the status register of the caller
+        for d in range(9, 24):
+            e = R.List(R.Str('y'))
+            for i in range(d):
+                e = R.Seq(e)
+            rules.append(R.Rule(f'A{d}', e))
+        for d in range(10, 24, 3):
+            e = R.Opt(R.Ref('X'))
+            for i in range(d):
+                e = R.Seq(e)
+            rules.append(R.Rule(f'O{d}', e))
         return [R.Rule('start', R.Ref('S9'))] + rules + [R.Rule('X', R.Regex('b+'))]
     G.append(('deep-nesting-threshold', deep_threshold, {'names': (None,)}))
 
